@@ -83,6 +83,17 @@ func c12Eval(w *Worker, c *GCase) {
 	}
 	text := c.Spec.Render()
 	res := ygo.Build(text, ygo.Options{Fuel: buildFuel})
+	// the same grammar written the other common way: terminals as character literals that are
+	// never declared, no ';' after the rule groups. The verdict must be the same.
+	if alt := c12Alt(c.Spec); alt != "" {
+		res2 := ygo.Build(alt, ygo.Options{Fuel: buildFuel})
+		w.Count("alternative_renderings", 1)
+		if res2.OK() != res.OK() || res2.Fuel != res.Fuel {
+			w.Violate("C12|verdict-depends-on-rendering|"+key, fmt.Sprintf("grammar [%s]: written with %%token names and ';' yaccgo answers %q, written with undeclared character literals and without ';' it answers %q", key, okOr(res), okOr(res2)), c,
+				map[string]interface{}{"grammar_text": text, "alternative_text": alt})
+			return
+		}
+	}
 	if !usable || len(c.Spec.Nonterminals()) >= 2 {
 		w.Distinct(key)
 	}
@@ -173,4 +184,37 @@ func tailStr(s string, n int) string {
 		return "..." + s[len(s)-n:]
 	}
 	return s
+}
+
+func okOr(r *ygo.Result) string {
+	if r.OK() {
+		return "accepted"
+	}
+	return r.Diag()
+}
+
+// c12Alt renders a class-style specification (terminals TA..TD) with the
+// terminals as undeclared character literals and without ';' terminators.
+func c12Alt(s *gram.Spec) string {
+	lit := map[string]string{"TA": "'a'", "TB": "'b'", "TC": "'c'", "TD": "'d'"}
+	n := &gram.Spec{Start: s.Start, Types: s.Types, Union: s.Union, HasUnion: s.HasUnion}
+	if len(s.Prec) > 0 {
+		return ""
+	}
+	for _, r := range s.Rules {
+		nr := gram.Rule{L: r.L}
+		for _, x := range r.R {
+			if l, ok := lit[x]; ok {
+				x = l
+			}
+			nr.R = append(nr.R, x)
+		}
+		n.Rules = append(n.Rules, nr)
+	}
+	for _, t := range s.Tokens {
+		if _, ok := lit[t.Name]; !ok {
+			return "" // other token kinds: keep the canonical rendering only
+		}
+	}
+	return gram.RenderAtoms(n.Atoms(gram.LayoutOpts{NoSemicolon: true}), nil)
 }
